@@ -175,13 +175,28 @@ Definition move_to (tpb : Z) (a : automation) (v : Q) (d : option Q) (e : Q) : o
 Definition bind_to (a : automation) (b : Z) : automation * list call :=
   (mkAuto (a_range a) (a_bound a) (a_cv a) (a_mods a) (a_binds a ++ [b]) (a_default a), [(b, value a)]).
 
+(* FIX-C18: automation.range = ..., automation.boundaries = ..., automation.default_duration = ... are plain
+   attributes: [range] and [boundaries] are read by the value property alone, afresh on every read (the initial
+   value was fixed in __init__), [default_duration] by move_by when no duration is given.  Assigning them calls
+   nobody and touches neither current_value nor the moves under way. *)
+Definition set_range (a : automation) (r : option (Q * Q)) : automation :=
+  mkAuto r (a_bound a) (a_cv a) (a_mods a) (a_binds a) (a_default a).
+Definition set_bound (a : automation) (b : boundary) : automation :=
+  mkAuto (a_range a) b (a_cv a) (a_mods a) (a_binds a) (a_default a).
+Definition set_default (a : automation) (d : Q) : automation :=
+  mkAuto (a_range a) (a_bound a) (a_cv a) (a_mods a) (a_binds a) d.
+
 (** * Scenarios: what the correspondence check runs *)
 Inductive op :=
 | OTick
 | OMoveTo (v : Q) (d : option Q) (e : Q)
 | OMoveBy (v : Q) (d : option Q) (e : Q)
 | OJumpTo (v : Q)
-| OBind (b : Z).
+| OBind (b : Z)
+(* FIX-C18: the automation is re-configured after construction, possibly while a move is running *)
+| OSetRange (r : option (Q * Q))
+| OSetBound (b : boundary)
+| OSetDefault (d : Q).
 
 Definition step (tpb : Z) (a : automation) (o : op) : option (automation * list call) :=
   match o with
@@ -190,6 +205,9 @@ Definition step (tpb : Z) (a : automation) (o : op) : option (automation * list 
   | OMoveBy v d e => option_map (fun a' => (a', [])) (move_by tpb a v d e)
   | OJumpTo v => Some (jump_to a v)
   | OBind b => Some (bind_to a b)
+  | OSetRange r => Some (set_range a r, [])
+  | OSetBound b => Some (set_bound a b, [])
+  | OSetDefault d => Some (set_default a d, [])
   end.
 
 (* n ticks; the list of (value after the tick, calls made by the tick) *)
